@@ -32,10 +32,11 @@ const (
 	ckZeroTail
 	ckAllZero
 	ckText
+	ckCRCTwins
 	ckKinds
 )
 
-var contentKindNames = []string{"random", "two-symbol", "repeated-slice", "zero-tail", "all-zero", "text"}
+var contentKindNames = []string{"random", "two-symbol", "repeated-slice", "zero-tail", "all-zero", "text", "crc-twins"}
 
 // expandContent deterministically expands (kind, seed) to n bytes.
 func expandContent(kind int, seed uint64, n, sliceSize int) []byte {
@@ -84,6 +85,24 @@ func expandContent(kind int, seed uint64, n, sliceSize int) []byte {
 			b[0] = byte(g.next()) | 1
 		}
 	case ckAllZero:
+	case ckCRCTwins:
+		// random content in which some slices are different from, but
+		// share their CRC-32 with, another slice of the same file
+		for i := range b {
+			b[i] = byte(g.next())
+		}
+		k := n / sliceSize
+		if sliceSize >= 8 && k >= 2 {
+			pairs := 1 + int(g.next()%3)
+			for p := 0; p < pairs; p++ {
+				i := int(g.next() % uint64(k))
+				j := int(g.next() % uint64(k))
+				if i == j {
+					j = (i + 1) % k
+				}
+				forgeCRC(b[j*sliceSize:(j+1)*sliceSize], crc32.ChecksumIEEE(b[i*sliceSize:(i+1)*sliceSize]))
+			}
+		}
 	case ckText:
 		words := []string{"par", "ity ", "slice\n", "the ", "recovery ", "block ", "0123456789", "\n"}
 		i := 0
@@ -180,7 +199,7 @@ type GenOpts struct {
 	MaxR       int
 }
 
-var nameStems = []string{"f%d.dat", "data%d.bin", "sub/f%d", "sub/deep/er/f%d.x", "with space %d.txt", "UPPER%d.DAT", "d%d/file", "a-%d_b.c.d"}
+var nameStems = []string{"f%d.dat", "data%d.bin", "sub/f%d", "sub/deep/er/f%d.x", "with space %d.txt", "UPPER%d.DAT", "d%d/file", "a-%d_b.c.d", "v1..%d.dat", "rel..%d/data.bin", "wait...%d", "win\\f%d.dat", "a\\..\\b%d"}
 var par1Stems = []string{"f%d.dat", "data%d.bin", "with space %d.txt", "héllo%d.txt", "日本%d", "\U0001F600%d.bin", "UPPER%d.DAT", "clip%d-\U0001F600", "%d\U00010348\U0001F4BE", "x%dé"}
 var baseNames = []string{"set", "my set", "archive.v1", "x", "Set-2_b"}
 
@@ -238,6 +257,21 @@ func GenWorld(r *Run, o GenOpts) *World {
 	for i := 0; i < nf; i++ {
 		t.Begin("file")
 		name := fmt.Sprintf(stems[t.Pick(weightsFirst(len(stems), 5), "stem")], i)
+		if i > 0 && t.Bool(1, 12, "case-twin") {
+			// a name that differs from the previous file's only in case
+			prev := w.Files[i-1].Name
+			used := false
+			tw := caseTwin(prev)
+			for _, f := range w.Files {
+				if f.Name == tw {
+					used = true
+				}
+			}
+			if tw != prev && !used {
+				name = tw
+				r.Probe("names-differing-only-in-case")
+			}
+		}
 		var size int
 		S := w.S
 		if o.Par1 {
@@ -280,7 +314,10 @@ func GenWorld(r *Run, o GenOpts) *World {
 		total += size
 		kind := ckRandom
 		if !o.RandomOnly {
-			kind = t.Pick([]int{8, 2, 2, 2, 1, 1}, "content")
+			kind = t.Pick([]int{8, 2, 2, 2, 1, 1, 2}, "content")
+			if kind == ckCRCTwins {
+				r.Probe("slices-sharing-crc32")
+			}
 		}
 		// gopar credits a found slice to every location with equal
 		// checksums, which is quadratic in the number of duplicate
@@ -356,6 +393,22 @@ func GenWorld(r *Run, o GenOpts) *World {
 		w.Disk.Put(w.Path(i), f.Data)
 		if len(f.Data) >= 16384 {
 			r.Probe("file>=16KiB")
+		}
+	}
+	// a name with backslashes is one ordinary file name here; an
+	// unrelated file may well live at the path the name would denote
+	// on another platform
+	for _, f := range w.Files {
+		if strings.Contains(f.Name, "\\") {
+			p := filepath.Join(w.Dir, filepath.Clean(strings.Replace(f.Name, "\\", "/", -1)))
+			if strings.HasPrefix(p, w.Dir+"/") {
+				if _, exists := w.Disk.Get(p); !exists {
+					data := expandContent(ckText, 31, 20, 4)
+					w.Bystanders[p] = data
+					w.Disk.Put(p, data)
+					r.Probe("bystander-at-slash-translated-path")
+				}
+			}
 		}
 	}
 	// bystanders
@@ -742,4 +795,19 @@ func (w *World) DeleteRecovery(r *Run) int {
 		r.Count("damage:delete-recovery-file")
 	}
 	return n
+}
+
+// caseTwin flips the case of the ASCII letters of the base name.
+func caseTwin(name string) string {
+	dir, base := filepath.Split(name)
+	b := []byte(base)
+	for i, c := range b {
+		switch {
+		case c >= 'a' && c <= 'z':
+			b[i] = c - 32
+		case c >= 'A' && c <= 'Z':
+			b[i] = c + 32
+		}
+	}
+	return dir + string(b)
 }
